@@ -81,6 +81,9 @@ def _extra():
         S([P('p0', [5])], [[10, True]], emit_ticks=2),
         S([P('p0', [1])], [[6, True]], emit_ticks=3),
         S([P('p0', [2]), P('p1', [3])], [[7, False], [5, True]], emit_ticks=4, unit=0.25),
+        # a branch-level flag and more specific flags below it in the same `store_schema` dictionary
+        S([P('p0', [1]), P('p1', [2])], [[4, True]], noemit=['x0'], emit_via='mixed_on'),
+        S([P('p0', [1]), P('p1', [2])], [[4, True]], noemit=['x0', 'tok_p1'], emit_via='mixed_off'),
     ]
 
 
